@@ -99,6 +99,28 @@ func (r *Report) Floor(rule string, min int, why string) {
 
 func (r *Report) Note(k string, v any) { r.Notes[k] = v }
 
+// SubRun runs another property's rules into this report and keeps only the
+// rules named in rename, under their new names (floors included).
+func (r *Report) SubRun(run func(), rename map[string]string) {
+	nO, nF := len(r.Obls), len(r.floors)
+	run()
+	newObls := append([]*Obligation{}, r.Obls[nO:]...)
+	newFloors := append([]floor{}, r.floors[nF:]...)
+	r.Obls, r.floors = r.Obls[:nO], r.floors[:nF]
+	count := map[string]int{}
+	for _, o := range newObls {
+		if to, ok := rename[o.Rule]; ok {
+			count[o.Rule]++
+			r.add(o.Status, to, o.Func, o.Construct, o.Pos, o.Detail, o.Facts)
+		}
+	}
+	for _, f := range newFloors {
+		if to, ok := rename[f.rule]; ok && count[f.rule] < f.min {
+			r.Undecide(to, "", "instance-floor ("+f.rule+")", "", fmt.Sprintf("rule matched %d instance(s), confirmed floor is %d (%s)", count[f.rule], f.min, f.why))
+		}
+	}
+}
+
 // Count returns the number of obligations of a rule.
 func (r *Report) Count(rule string) int {
 	n := 0
